@@ -302,8 +302,8 @@ theorem Inv.cRemoveS {s : State} (hI : Inv s) {a : Actor} {n f : Nat} (hp : s.pc
         rw [hp] at h2; simp [Pc.pend] at h2
       exact ⟨b, by cr_simp; simp [upd, hbf, h1], by cr_simp; simp [updA, hba, h2]⟩
   case freshHolder => cr_auto
-  case scanL0 => cr_auto
-  case unlockL0 => cr_auto
+  case scanL0 => unfold ScanL0 at *; cr_auto
+  case unlockL0 => unfold ScanL0 UnlockL0 at *; cr_auto
   case oScanOk =>
     intro b g cur l0 seen hb
     have hba : b ≠ a := by intro e; subst e; revert hb; cr_simp; simp [updA]
